@@ -28,8 +28,8 @@ Proof.
   change (handle_probably_reversed_patch (set_dry o)) with (handle_probably_reversed_patch o).
   destruct (should_check_if_patch_is_reversed loc o).
   - match goal with |- rbind ?m _ = _ => destruct m as [d|e]; cbn [rbind]; [|reflexivity] end.
-    destruct (snd d); rewrite apply_one_dry; (match goal with |- rbind ?m _ = _ => destruct m; cbn [rbind]; [apply apply_rest_dry|reflexivity] end).
-  - rewrite apply_one_dry. destruct (apply_one o p f 0 s h loc); cbn [rbind]; [apply apply_rest_dry|reflexivity].
+    destruct (snd d); unfold with_patch; rewrite apply_one_dry; (match goal with |- rbind (rbind ?m _) _ = _ => destruct m; cbn [rbind]; [rewrite apply_rest_dry; reflexivity|reflexivity] end).
+  - unfold with_patch. rewrite apply_one_dry. destruct (apply_one o p f 0 s h loc); cbn [rbind]; [rewrite apply_rest_dry; reflexivity|reflexivity].
 Qed.
 Lemma apply_patch_dry o f p : apply_patch (set_dry o) f p = apply_patch o f p.
 Proof. unfold apply_patch. change (reverse_patch_opt (set_dry o)) with (reverse_patch_opt o). rewrite apply_first_dry. reflexivity. Qed.
